@@ -43,6 +43,18 @@ PROGRAMS = {
     "trait_provided": ("#[::entrait::entrait]\n    pub trait {TR}: ::core::marker::Sync {{ fn h0(&self) -> i64; fn h1(&self, target: i64) -> i64 {{ self.h0() * 10 + target }} async fn h2(&self, this: i64) -> i64 {{ self.h0() + this }} }}\n"
                        "    pub struct App;\n    impl {TR} for App {{ fn h0(&self) -> i64 {{ 1 }} }}",
                        ['let app = ::entrait::Impl::new(App);', 'rt::out("r", format!("{}|{}", {TR}::h1(&app, 2), rt::block_on({TR}::h2(&app, 1))));'], "12|2"),
+    # methods named like the helpers the delegation goes through, and a supertrait with a method of the same name
+    "trait_helper_names": ("#[::entrait::entrait]\n    pub trait {TR} {{ fn as_ref(&self, target: i64) -> i64; fn borrow(&self) -> i64; fn into_inner(&self, this: i64) -> i64; }}\n"
+                           "    pub struct App;\n    impl {TR} for App {{ fn as_ref(&self, a: i64) -> i64 {{ a * 10 }} fn borrow(&self) -> i64 {{ 2 }} fn into_inner(&self, b: i64) -> i64 {{ b }} }}",
+                           ['let app = ::entrait::Impl::new(App);', 'rt::out("r", format!("{}|{}|{}", {TR}::as_ref(&app, 1), {TR}::borrow(&app), {TR}::into_inner(&app, 3)));'], "10|2|3"),
+    "trait_helper_names_ref": ("#[::entrait::entrait(delegate_by = ref)]\n    pub trait {TR} {{ fn as_ref(&self, target: i64) -> i64; fn borrow(&self) -> i64; }}\n"
+                               "    pub struct Inner;\n    impl {TR} for Inner {{ fn as_ref(&self, a: i64) -> i64 {{ a * 10 }} fn borrow(&self) -> i64 {{ 2 }} }}\n"
+                               "    pub struct App(pub Inner);\n    impl ::core::convert::AsRef<dyn {TR}> for App {{ fn as_ref(&self) -> &(dyn {TR} + 'static) {{ &self.0 }} }}",
+                               ['let app = ::entrait::Impl::new(App(Inner));', 'rt::out("r", format!("{}|{}", {TR}::as_ref(&app, 1), {TR}::borrow(&app)));'], "10|2"),
+    "trait_super_same_name": ("pub trait Base {{ fn name(&self) -> i64; }}\n    #[::entrait::entrait]\n    pub trait {TR}: Base {{ fn name(&self) -> i64; }}\n"
+                              "    pub struct App;\n    impl Base for App {{ fn name(&self) -> i64 {{ 1 }} }}\n    impl {TR} for App {{ fn name(&self) -> i64 {{ 2 }} }}\n"
+                              "    impl<T: Base> Base for ::entrait::Impl<T> {{ fn name(&self) -> i64 {{ 3 }} }}",
+                              ['let app = ::entrait::Impl::new(App);', 'rt::out("r", format!("{}|{}", <::entrait::Impl<App> as {TR}>::name(&app), <::entrait::Impl<App> as Base>::name(&app)));'], "2|3"),
     "trait_self_ms": ("#[::entrait::entrait(?Send)]\n    pub trait {TR} {{ async fn h2(&self, result: i64) -> i64; }}\n"
                       "    pub struct App;\n    impl {TR} for App {{ async fn h2(&self, r: i64) -> i64 {{ r + 1 }} }}",
                       ['let app = ::entrait::Impl::new(App);', 'rt::out("r", rt::block_on({TR}::h2(&app, 1)));'], "2"),
@@ -118,6 +130,8 @@ DECOYS = {
     "i_ops": "#[allow(unused_imports)] use ::core::ops::{Deref, DerefMut};",
     "i_future": "#[allow(unused_imports)] use ::core::future::{Future, IntoFuture};",
     "i_misc": "#[allow(unused_imports)] use ::core::any::Any; #[allow(unused_imports)] use ::std::borrow::ToOwned; #[allow(unused_imports)] use ::core::convert::{AsMut, Into};",
+    # a local extension trait, implemented for everything, whose methods are named like the helpers the generated code relies on
+    "x_blanket": "pub trait Ext { fn as_ref(&self) -> u8 { 0 } fn borrow(&self) -> u8 { 0 } fn into_inner(&self) -> u8 { 0 } fn deref(&self) -> u8 { 0 } fn clone(&self) -> u8 { 0 } } impl<T: ?::core::marker::Sized> Ext for T {}",
     # unit structs / consts in the value namespace turn a macro-introduced `let <name> = ..` into a pattern match
     # (names chosen not to coincide with the programs' own parameter names)
     "v_locals": "pub struct provider; pub struct receiver; pub struct the_future; pub struct output; pub struct ret; pub struct out; pub struct res; pub struct imp; pub struct delegation_target; pub struct arg0; pub struct arg1;",
